@@ -1,7 +1,7 @@
 #!/bin/bash
 # tools/runall.sh [tier] : run every registered check on /repo sequentially; summary line per check
 tier=${1:-quick}
-cd /verif
+cd "$(dirname "$0")/.."
 for c in $(python3 -c "import json;print(' '.join(x['property_id'] for x in json.load(open('MANIFEST.json'))['checks']))"); do
   s=$(date +%s)
   out=$(./check $c $tier 2>&1); rc=$?
